@@ -580,6 +580,14 @@ __CPROVER_requires(VERIF_GCPU_OK)
 __CPROVER_assigns(__CPROVER_object_upto(out, 32 * ((num_chaining_values + 1) / 2)), g_cpu_features)
 __CPROVER_ensures(__CPROVER_return_value == (num_chaining_values + 1) / 2)
 __CPROVER_ensures(VERIF_GCPU_OK)
+/* *_fn: output i < n/2 is the hash_many result of the 64-byte row (child 2i, child 2i+1) -- in this order --
+ * with the key, counter 0 (not incremented), flags | PARENT, no start/end flags, one block; an odd last
+ * child is copied to output n/2.  Every output byte, via the witness. */
+FN(__CPROVER_ensures(VW_IN(out, 32 * (num_chaining_values / 2)) ==>
+     VW_AT(out) == VBYTE(VERIF_UF_ROW(child_chaining_values + 64 * (VW_IDX(out) / 32), 1, key, 0,
+                                      flags | PARENT, 0, 0), VW_IDX(out) % 32)))
+FN(__CPROVER_ensures((num_chaining_values % 2 == 1 && VW_IN(out + 32 * (num_chaining_values / 2), 32)) ==>
+     VW_AT(out) == child_chaining_values[32 * (num_chaining_values - 1) + VW_IDX(out) % 32]))
 ;
 
 /* any input_len > 0; out has room for MAX_SIMD_DEGREE_OR_2 (=16) CVs = 512 bytes.
